@@ -274,14 +274,17 @@ PROPS = {
         ],
     },
     "C12": {
-        "modules": ["Hannibal.Props.C12"],
+        "modules": ["Hannibal.Props.C12", "Hannibal.Props.C12Q", "Hannibal.Props.C12QCurrent"],
         "theorems": ["Hannibal.C12_holds", "Hannibal.C12_current", "Hannibal.C12_state",
-                     "Hannibal.wellWired12_current"],
+                     "Hannibal.wellWired12_current", "Hannibal.C12q_holds", "Hannibal.C12q_current"],
         "cases": {"quick": {"C12": 1500}, "thorough": {"C12": 20000, "x:C12": 320}},
         "assumptions": [
             "atomicity: everything a task does inside one poll is atomic w.r.t. other tasks (single-thread executor)",
             "futures-channel mpsc semantics as read from 0.3.31 (do_send_b / next_message / Receiver::drop)",
             "the bound is demanded until the executor-level termination event of the actor task",
+            "'every send still returns once the actor catches up or terminates': monC12q (no send outstanding at a "
+            "quiescent point) is theorem C12q_holds for runs with fresh operation ids (witness c12q_reuse_simple), and "
+            "clause (d) of monC02 for terminated actors; both run on the real traces",
         ],
     },
 }
